@@ -3,17 +3,45 @@
 //! Engine: explicit-state exploration (stateright BFS) of the *visitor's answers*, the real
 //! `duke::read_class_multi` / `ClassFile::accept` being the transition function.
 //!
+//! | clause of the statement | decided by |
+//! |---|---|
+//! | whatever subset a visitor declares interest in … the items it receives are those of a full read, in order | graph 1: masked read == full read filtered by the answers (oracle.rs); per-member masks (visitors of one class answering differently) |
+//! | declining a class / field / method / record component (or `visit_code() = None`) never disturbs the items after it | graph 1: decline deviations for every member index, alone and combined; trailing members / pairs in every generated class |
+//! | a read consumes exactly the bytes of one class file whatever the visitor skips | graph 1: cursor at the end of the class after every masked read (trailing bytes follow); graph 2; space 4 |
+//! | class files concatenated in one stream are delivered one per successive read | graph 2 (streams of 1..3 classes × 9 visitor kinds per read, one carried `Vec<ClassFile>`); space 4 (the same through every legal `Read + Seek`) |
+//! | replaying an in-memory class delivers the same events as reading its bytes | graph 1: masked replay == filtered full read, replay == read for the same answers; the callbacks received by the class, method and code visitors are counted by kind and must agree between read and replay (a delivery made twice or split in two is merged by the tree builder and would not show in the trees; `visit_last_label` excepted: which positions carry a label is not a fact of the class) |
+//! | replaying into the tree builder reproduces the class | graph 1, default answers: replay into `Vec<ClassFile>`, `Option<ClassFile>`, replay of the replay, `()`; graph 2: replay of every class of a stream into one carried `Vec<ClassFile>` |
+//!
 //! Graph 1 (masks): a state is (class, the deviating answers the visitor has decided on so far, in
 //! canonical decision order); an action adds one more deviating answer (turn one interest flag off at one
 //! of the five levels, decline the class / one field / one method / one record component, answer
-//! `visit_code()` with `None` for one method) or jumps to a corner (everything off, …). On every state the
-//! real reader is run with a visitor that gives exactly these answers, the class is additionally
-//! replayed from the in-memory tree into the same visitor, and both results are compared with the FULL
-//! read of the same bytes filtered by the answers (oracle.rs).
+//! `visit_code()` with `None` for one method, let the visitor of ONE member answer differently from its
+//! siblings) or jumps to a corner (everything off, …). On every state the real reader is run with a visitor
+//! that gives exactly these answers, the class is additionally replayed from the in-memory tree into the same
+//! visitor, and both results are compared with the FULL read of the same bytes filtered by the answers (oracle.rs).
+//!
+//! The classes of graph 1:
+//! * kitchen sinks (every attribute at every level) under three attribute orders, classes without any class attribute,
+//!   the 357 javac classes of the vendored corpus;
+//! * space 3, generated odd-but-legal classes (c17/gen.rs and the shared suite `cfmodel::suite`): element values
+//!   nested to EVERY depth from 0 to two beyond the bound of the reader (256) at every place an element value can
+//!   stand, in four nesting shapes (the replay must accept exactly what the reader accepts); attributes longer than
+//!   65535 bytes at every level; unknown attributes named like near misses of the predefined names, like names
+//!   predefined at another level, and with multi-byte names; one LineNumberTable / LocalVariableTable /
+//!   LocalVariableTypeTable attribute per entry under rotations of the attribute order; the suite groups
+//!   attribute-orders-and-contents (6 sinks × 24 rotations, modules, element values of every tag, frame gaps, empty
+//!   tables), versions-and-utf8 (every version, preview minors, modified-UTF-8 corners in every role), cldc-stack-map
+//!   and empty-debug-tables. A generated class the FULL read refuses is outside the domain (reads with five
+//!   visitors are still run for panics).
 //!
 //! Graph 2 (streams): a state is (stream of 1..3 concatenated class files, the visitor kind chosen for each
 //! class read so far, cursor); an action reads the next class with one of nine visitor kinds; after the
 //! k-th read the cursor must sit exactly on the k-th boundary and the k-th class must have been delivered.
+//!
+//! Space 4 (environment, c17/env.rs): streams of two classes × sequences of visitor kinds × the alphabet of legal
+//! `Read + Seek` behaviours of c20/io.rs (chunked, `BufReader` capacities, Interrupted, periodic boundaries, one
+//! boundary at every offset around the class boundary and on a grid): same deliveries and same positions as
+//! through a cursor.
 
 use std::io::Cursor;
 use std::sync::atomic::{AtomicU64, Ordering};
@@ -22,6 +50,7 @@ use cfmodel::asm::{assemble, AttrOrder, Encoding};
 use cfmodel::model::SClass;
 use duke::tree::class::ClassFile;
 use duke::visitor::MultiClassVisitor;
+use rayon::prelude::*;
 use stateright::{Checker, Model, Property};
 use vcore::{json, Ctx, Stats, Value};
 
@@ -29,6 +58,13 @@ use vcore::{json, Ctx, Stats, Value};
 mod visitors;
 #[path = "c17/oracle.rs"]
 mod oracle;
+#[path = "c17/gen.rs"]
+mod gen;
+#[path = "c17/env.rs"]
+mod env;
+#[path = "c20/io.rs"]
+#[allow(dead_code)]
+mod io;
 
 use visitors::{Multi, Plan, SimpleMulti, CLASS, FLAGS, LEVEL_NAMES, RECORD};
 
@@ -83,6 +119,17 @@ impl Dev {
 	}
 }
 
+/// outcomes counted per family of classes as well
+const FAMILY_COUNTERS: [&str; 7] = [
+	"masked-read:as-full-read-filtered",
+	"masked-replay:as-full-read-filtered",
+	"simple-read:as-full-read-filtered",
+	"replay-vs-read:equal",
+	"replay-into-Vec<ClassFile>:reproduces-the-class",
+	"masked-read:uninterested-items-delivered-correctly",
+	"replay-vs-read:same-events",
+];
+
 const CORNER_BASE: u16 = 60000;
 const CORNERS: [&str; 9] = [
 	"every interest off at every level",
@@ -98,6 +145,8 @@ const CORNERS: [&str; 9] = [
 
 struct ClassCase {
 	label: String,
+	/// which space the class comes from (prefix of the per-family outcome counters)
+	family: String,
 	bytes: Vec<u8>,
 	/// hex of `bytes` (for replay files and the watchdog's case description)
 	hex: String,
@@ -150,9 +199,20 @@ fn present_flags(r: &SClass) -> [Vec<bool>; 5] {
 }
 
 fn build_case(label: &str, bytes: Vec<u8>, max_dev: usize) -> Result<ClassCase, String> {
-	let reference = match cfmodel::parse(&bytes) {
-		Ok(p) => p.class,
-		Err(e) => vcore::machinery_fail(&format!("{label}: the reference parser rejects a class of the test set: {e}")),
+	build_case_with(label, "corpus", bytes, max_dev, None, false)
+}
+
+/// `model`: what the class states, when the caller assembled it from a model (else the independent parser says it);
+/// it only decides which deviations are worth combining. `lenient` (replays): a class the reference parser cannot
+/// read (element values nested deeper than its own limit) is described by its full read instead.
+fn build_case_with(label: &str, family: &str, bytes: Vec<u8>, max_dev: usize, model: Option<&SClass>, lenient: bool) -> Result<ClassCase, String> {
+	let reference = match model {
+		Some(m) => Some(m.clone()),
+		None => match cfmodel::parse(&bytes) {
+			Ok(p) => Some(p.class),
+			Err(_) if lenient => None,
+			Err(e) => vcore::machinery_fail(&format!("{label}: the reference parser rejects a class of the test set: {e}")),
+		},
 	};
 	let tree = match vcore::guard(|| duke::read_class(&mut Cursor::new(&bytes))) {
 		Ok(Ok(t)) => t,
@@ -160,6 +220,7 @@ fn build_case(label: &str, bytes: Vec<u8>, max_dev: usize) -> Result<ClassCase, 
 		Err(p) => return Err(format!("full read panicked at {}", p.site)),
 	};
 	let full = cfmodel::duke_proj::project(&tree).map_err(|e| format!("full read gives an inconsistent tree: {e}"))?;
+	let reference = reference.unwrap_or_else(|| full.clone());
 	let present = present_flags(&reference);
 	let mut effective = Vec::new();
 	let mut rest = Vec::new();
@@ -199,7 +260,7 @@ fn build_case(label: &str, bytes: Vec<u8>, max_dev: usize) -> Result<ClassCase, 
 	}
 	let mut stream = bytes.clone();
 	stream.extend_from_slice(&TAIL);
-	Ok(ClassCase { label: label.to_owned(), hex: vcore::hex(&bytes), bytes, stream, tree, full, alphabet: effective, effective: n, max_dev })
+	Ok(ClassCase { label: label.to_owned(), family: family.to_owned(), hex: vcore::hex(&bytes), bytes, stream, tree, full, alphabet: effective, effective: n, max_dev })
 }
 
 impl ClassCase {
@@ -340,16 +401,19 @@ fn check_plan(ctx: &'static Ctx, cnt: &Counters, case: &ClassCase, plan: &Plan, 
 		// --- reading the bytes
 		executions += 1;
 		let observed = if simple {
-			read_at(&case.stream, 0, SimpleMulti::new(plan)).map(|(r, pos)| (r.map(|v| (v.out, v.decisions)), pos))
+			read_at(&case.stream, 0, SimpleMulti::new(plan)).map(|(r, pos)| (r.map(|v| (v.out, v.decisions, v.events)), pos))
 		} else {
-			read_at(&case.stream, 0, Multi::new(plan)).map(|(r, pos)| (r.map(|v| (v.out, v.decisions)), pos))
+			read_at(&case.stream, 0, Multi::new(plan)).map(|(r, pos)| (r.map(|v| (v.out, v.decisions, v.events)), pos))
 		};
 		let mut from_read = None;
+		let mut events_read = None;
+		let mut events_replay = None;
 		match observed {
 			Err(p) => j.diff(read_origin, &format!("panic@{}", p.file()), &format!("the reader panicked at {}: {}", p.site, p.msg)),
 			Ok((Err(e), _)) => j.diff(read_origin, "refused", &format!("reading a valid class fails with this visitor: {}", short(&e))),
-			Ok((Ok((out, d)), pos)) => {
+			Ok((Ok((out, d, ev)), pos)) => {
 				decisions += d;
+				events_read = Some(ev);
 				if pos != case.bytes.len() as u64 {
 					j.diff(read_origin, "cursor-not-at-end-of-class", &format!("after the read the cursor is at {pos}, the class file ends at {}", case.bytes.len()));
 				}
@@ -360,16 +424,17 @@ fn check_plan(ctx: &'static Ctx, cnt: &Counters, case: &ClassCase, plan: &Plan, 
 		executions += 1;
 		let tree = case.tree.clone();
 		let replayed = vcore::guard(|| if simple {
-			tree.accept(SimpleMulti::new(plan)).map(|v| (v.out, v.decisions))
+			tree.accept(SimpleMulti::new(plan)).map(|v| (v.out, v.decisions, v.events))
 		} else {
-			tree.accept(Multi::new(plan)).map(|v| (v.out, v.decisions))
+			tree.accept(Multi::new(plan)).map(|v| (v.out, v.decisions, v.events))
 		});
 		let mut from_replay = None;
 		match replayed {
 			Err(p) => j.diff(replay_origin, &format!("panic@{}", p.file()), &format!("accept() panicked at {}: {}", p.site, p.msg)),
 			Ok(Err(e)) => j.diff(replay_origin, "refused", &format!("replaying the tree fails with this visitor: {}", short(&e))),
-			Ok(Ok((out, d))) => {
+			Ok(Ok((out, d, ev))) => {
 				decisions += d;
+				events_replay = Some(ev);
 				from_replay = j.delivered(replay_origin, simple, &out);
 			},
 		}
@@ -392,6 +457,28 @@ fn check_plan(ctx: &'static Ctx, cnt: &Counters, case: &ClassCase, plan: &Plan, 
 					}
 					j.diff(origin, &k, &format!("reading the bytes (expected) and replaying the tree (got) deliver different items to the same visitor: {d}"));
 				}
+			}
+		}
+		// --- "the same events": the callbacks the class, method and code visitors received, by kind and number (the
+		// tree builder merges or overwrites what it is told twice, so the trees alone would not show a repeated or a
+		// split delivery); compared when both deliveries are, by themselves, what the oracle allows
+		if let (Some((_, true)), Some((_, true)), Some(er), Some(ep)) = (&from_read, &from_replay, &events_read, &events_replay) {
+			let which_empty_table_unknown = case.full.methods.iter().enumerate().any(|(i, m)| plan.on_m(visitors::CODE, i as u16, 2) != plan.on_m(visitors::CODE, i as u16, 3) && m.code.as_ref().is_some_and(|c| c.empty_local_table));
+			let mut same = true;
+			for (i, name) in visitors::EVENT_NAMES.iter().enumerate() {
+				// not compared: visit_last_label. A label is a name for a position; which positions carry one depends on the
+				// tables that were read (the end of the code is named only if an entry of interest ends there), while a
+				// replay hands over every label the tree has. The positions themselves are compared through the projection.
+				if i == visitors::EV_LAST_LABEL {
+					continue;
+				}
+				if er[i] != ep[i] && !(which_empty_table_unknown && i == visitors::EV_LOCAL_VARIABLES) {
+					same = false;
+					j.diff("replay-vs-read", &format!("events:{name}"), &format!("reading the bytes makes {} calls of {name}, replaying the tree makes {} (same visitor answers)", er[i], ep[i]));
+				}
+			}
+			if same {
+				j.st.outcome("replay-vs-read:same-events");
 			}
 		}
 		if let Some((a, _)) = &from_read {
@@ -492,6 +579,14 @@ impl MaskModel {
 			}
 		}
 		st.outcome(&format!("states-with-{}-deviations", if s.1.last().is_some_and(|d| *d >= CORNER_BASE) { "corner".to_owned() } else { s.1.len().to_string() }));
+		// the same counters per family of classes (vacuity floors of the generated spaces)
+		st.outcome(&format!("{}|states", case.family));
+		for k in FAMILY_COUNTERS {
+			let n = st.get(k);
+			if n > 0 {
+				st.outcome_n(&format!("{}|{k}", case.family), n);
+			}
+		}
 		// samples: a fixed set of states of the first class (the set does not depend on scheduling)
 		if s.0 == 0 && s.1.len() == 2 && s.1[1] == s.1[0] + 7 && s.1[0] % 16 == 3 {
 			let text = plan.describe();
@@ -750,6 +845,22 @@ fn stream_carry(ctx: &'static Ctx, cnt: &Counters, pool: &[ClassCase], sc: &Stre
 			_ => ctx.diff("stream[carried Vec<ClassFile>]:class-differs", &format!("class {k} of the stream differs from its single read"), replay),
 		}
 	}
+	// the same by replay: every class of the stream replayed into ONE tree builder that already holds the classes before it
+	cnt.executions.fetch_add(acc.len() as u64, Ordering::Relaxed);
+	st.evaluations += acc.len() as u64;
+	let trees = acc.clone();
+	match vcore::guard(|| trees.into_iter().try_fold(Vec::<ClassFile>::new(), |carried, c| c.accept(carried))) {
+		Err(p) => ctx.diff(&format!("stream[carried Vec<ClassFile>]:replay:panic@{}", p.file()), &p.msg, replay),
+		Ok(Err(e)) => ctx.diff("stream[carried Vec<ClassFile>]:replay:refused", &short(&e), replay),
+		Ok(Ok(carried)) => {
+			let same = carried.len() == acc.len() && carried.iter().zip(sc.classes.iter()).all(|(c, i)| cfmodel::duke_proj::project(c).is_ok_and(|p| p == pool[*i].full));
+			if same {
+				st.outcome("stream[carried Vec<ClassFile>]:replayed-into-one-carried-Vec");
+			} else {
+				ctx.diff("stream[carried Vec<ClassFile>]:replay:one-class-per-accept", &format!("replaying the {} classes of the stream into one tree builder leaves it with {} classes, or with other classes", acc.len(), carried.len()), replay);
+			}
+		},
+	}
 }
 
 // ---------------------------------------------------------------------------------------------
@@ -766,7 +877,7 @@ fn sink(variant: usize, order: AttrOrder, label: &str, max_dev: usize) -> ClassC
 		Ok(p) if p.class == m => {},
 		_ => vcore::machinery_fail(&format!("{label}: assembler and reference parser disagree")),
 	}
-	build_case(label, bytes, max_dev).unwrap_or_else(|e| vcore::machinery_fail(&format!("{label}: {e}")))
+	build_case_with(label, "sink", bytes, max_dev, Some(&m), false).unwrap_or_else(|e| vcore::machinery_fail(&format!("{label}: {e}")))
 }
 
 /// Generated corner cases the corpus cannot contain: classes WITHOUT ANY class-level attribute (javac always
@@ -784,7 +895,7 @@ fn bare_classes(max_dev: usize) -> Vec<ClassCase> {
 			Ok(p) if p.class == m => {},
 			_ => vcore::machinery_fail(&format!("{label}: assembler and reference parser disagree")),
 		}
-		build_case(label, bytes, max_dev).unwrap_or_else(|e| vcore::machinery_fail(&format!("{label}: {e}")))
+		build_case_with(label, "bare", bytes, max_dev, Some(&m), false).unwrap_or_else(|e| vcore::machinery_fail(&format!("{label}: {e}")))
 	}).collect()
 }
 
@@ -828,6 +939,113 @@ const STREAM_POOL: [&str; 5] = [
 	"main/corpus/lambda/Lambdas$Sub.class",
 	"main/corpus/anno/AnnoUse.class",
 ];
+
+
+// ---------------------------------------------------------------------------------------------
+// space 3: generated classes
+
+/// suite groups of `cfmodel::suite` explored by the mask graph (the other groups vary instruction encodings and pool
+/// layouts, which no skipping path looks at: C01's business)
+const SUITE_GROUPS: [&str; 4] = ["attribute-orders-and-contents", "versions-and-utf8", "cldc-stack-map", "empty-debug-tables"];
+
+struct Space3 {
+	cases: Vec<ClassCase>,
+	/// generated classes the FULL read refuses: outside the domain of the statement (label, family, bytes)
+	refused: Vec<(String, String, Vec<u8>)>,
+	/// classes beyond the reach of the reference parser / of which the full read states exactly the generated model
+	beyond_parser: u64,
+	beyond_parser_confirmed: u64,
+	unencodable: u64,
+	listed: u64,
+}
+
+enum Built {
+	Case(Box<ClassCase>, bool, bool),
+	Refused(String, String, Vec<u8>),
+	Unencodable,
+}
+
+fn space3(ctx: &'static Ctx) -> Space3 {
+	let quick = ctx.quick();
+	let mut listed: Vec<gen::Generated> = Vec::new();
+	let depths: Vec<usize> = (0..=gen::READER_DEPTH + 2).collect();
+	listed.extend(gen::nesting(&depths));
+	listed.extend(gen::big());
+	listed.extend(gen::names());
+	let rotations: Vec<usize> = if quick { vec![0, 1, 2, 3, 5, 7, 11, 13] } else { (0..24).collect() };
+	listed.extend(gen::split(&rotations));
+	for (group, cases) in cfmodel::suite::listed_groups(quick) {
+		let Some(family) = SUITE_GROUPS.iter().find(|g| **g == group) else { continue };
+		let family: &'static str = Box::leak(format!("suite/{family}").into_boxed_str());
+		for (label, model, enc) in cases {
+			listed.push(gen::Generated { label: format!("suite/{label}"), family, model, enc, max_dev: (1, 1), beyond_parser: false });
+		}
+	}
+	let n_listed = listed.len() as u64;
+	let built: Vec<Built> = listed.par_iter().map(|g| {
+		let bytes = match assemble(&g.model, &g.enc) {
+			Ok(b) => b,
+			Err(cfmodel::asm::AsmError::Unencodable(_)) => return Built::Unencodable,
+			Err(e) => vcore::machinery_fail(&format!("{}: assembler: {e:?}", g.label)),
+		};
+		// self-check of the assembler; element values nested deeper than the reference parser reads (its own limit) cannot
+		// be read back: for those the floor on `project(full read) == model` stands in
+		let beyond_parser = match cfmodel::parse(&bytes) {
+			Ok(p) if p.class == g.model => false,
+			Ok(_) => vcore::machinery_fail(&format!("{}: assembler and reference parser disagree", g.label)),
+			Err(e) if g.beyond_parser && format!("{e}").contains("element values nest deeper") => true,
+			Err(e) => vcore::machinery_fail(&format!("{}: the reference parser rejects a generated class: {e}", g.label)),
+		};
+		match build_case_with(&g.label, g.family, bytes.clone(), ctx.tier.pick(g.max_dev.0, g.max_dev.1), Some(&g.model), false) {
+			Ok(mut c) => {
+				// thorough: a suite class with a small alphabet is explored one deviation deeper
+				if !quick && g.family.starts_with("suite/") && c.effective <= SMALL_ALPHABET {
+					c.max_dev = 2;
+				}
+				let confirmed = c.full == g.model;
+				Built::Case(Box::new(c), beyond_parser, confirmed)
+			},
+			Err(_) => Built::Refused(g.label.clone(), g.family.to_owned(), bytes),
+		}
+	}).collect();
+	let mut out = Space3 { cases: Vec::new(), refused: Vec::new(), beyond_parser: 0, beyond_parser_confirmed: 0, unencodable: 0, listed: n_listed };
+	for b in built {
+		match b {
+			Built::Case(c, beyond, confirmed) => {
+				out.beyond_parser += beyond as u64;
+				out.beyond_parser_confirmed += (beyond && confirmed) as u64;
+				out.cases.push(*c);
+			},
+			Built::Refused(l, f, b) => out.refused.push((l, f, b)),
+			Built::Unencodable => out.unencodable += 1,
+		}
+	}
+	out
+}
+
+/// A class the full read refuses is outside the domain of the statement: whatever a partial read makes of it is
+/// accepted, except a panic (or a hang: the watchdog).
+fn check_refused(ctx: &'static Ctx, cnt: &Counters, label: &str, family: &str, bytes: &[u8], st: &mut Stats) {
+	let replay = || format!("case=mask\nlabel={label}\nplan={}\nclass file bytes (hex):\n{}", Plan::default().to_text(), vcore::hex(bytes));
+	let mut stream = bytes.to_vec();
+	stream.extend_from_slice(&TAIL);
+	let all_off = Plan::all_off();
+	let default = Plan::default();
+	let decline = Plan { decline_class: true, ..Default::default() };
+	let mut judge = |what: &str, r: Result<bool, vcore::Panic>| {
+		cnt.executions.fetch_add(1, Ordering::Relaxed);
+		st.evaluations += 1;
+		match r {
+			Err(p) => ctx.diff(&format!("outside-the-domain:{what}:panic@{}", p.file()), &format!("[{label}] the full read refuses this class; reading it with {what} panicked at {}: {}", p.site, p.msg), replay),
+			Ok(ok) => st.outcome(&format!("{family}|refused-by-the-full-read:{what}:{}", if ok { "read" } else { "refused" })),
+		}
+	};
+	judge("every-interest-off", read_at(&stream, 0, Multi::new(&all_off)).map(|(r, _)| r.is_ok()));
+	judge("every-interest-on", read_at(&stream, 0, Multi::new(&default)).map(|(r, _)| r.is_ok()));
+	judge("decline-class", read_at(&stream, 0, Multi::new(&decline)).map(|(r, _)| r.is_ok()));
+	judge("simple-class-visitor", read_at(&stream, 0, SimpleMulti::new(&default)).map(|(r, _)| r.is_ok()));
+	judge("unit", read_at(&stream, 0, ()).map(|(r, _)| r.is_ok()));
+}
 
 macro_rules! run_checker {
 	($model:expr) => {{
@@ -889,6 +1107,18 @@ fn main() {
 	for s in &skipped {
 		ctx.note(format!("class left out (its FULL read is not usable as a reference; C01's business): {s}"));
 	}
+	let n_before_space3 = classes.len();
+	let sp3 = space3(ctx);
+	let (sp3_refused, sp3_beyond, sp3_confirmed, sp3_unencodable, sp3_listed) = (sp3.refused, sp3.beyond_parser, sp3.beyond_parser_confirmed, sp3.unencodable, sp3.listed);
+	classes.extend(sp3.cases);
+	if classes.len() >= u16::MAX as usize {
+		vcore::machinery_fail("too many classes for the state encoding");
+	}
+	let mut family_classes: std::collections::BTreeMap<String, u64> = std::collections::BTreeMap::new();
+	for c in &classes[n_before_space3..] {
+		*family_classes.entry(c.family.clone()).or_insert(0) += 1;
+	}
+	let t_classes = ctx.elapsed_s();
 	let classes: &'static Vec<ClassCase> = Box::leak(Box::new(classes));
 	let n_classes = classes.len();
 	let alphabet_sizes: Vec<usize> = classes.iter().take(3).map(|c| c.alphabet.len()).collect();
@@ -897,7 +1127,12 @@ fn main() {
 	// ---- graph 1
 	let cnt1 = new_counters();
 	let (m_states, m_generated, m_depth) = run_checker!(MaskModel { ctx, cnt: cnt1, classes });
-	let mask_stats = std::mem::take(&mut *cnt1.stats.lock().unwrap_or_else(|e| e.into_inner()));
+	let mut mask_stats = std::mem::take(&mut *cnt1.stats.lock().unwrap_or_else(|e| e.into_inner()));
+	let mut refused_families: std::collections::BTreeMap<String, u64> = std::collections::BTreeMap::new();
+	for (label, family, bytes) in &sp3_refused {
+		*refused_families.entry(family.clone()).or_insert(0) += 1;
+		vcore::watched(|| format!("case=mask\nlabel={label}\nplan={}\nclass file bytes (hex):\n{}", Plan::default().to_text(), vcore::hex(bytes)), || check_refused(ctx, cnt1, label, family, bytes, &mut mask_stats));
+	}
 	let t_masks = ctx.elapsed_s();
 
 	// ---- graph 2
@@ -937,12 +1172,18 @@ fn main() {
 	for sc in streams.iter() {
 		stream_carry(ctx, cnt2, pool, sc, &mut stream_stats);
 	}
+	let t_streams = ctx.elapsed_s();
+
+	// ---- space 4
+	let env_max_class = ctx.tier.pick(4000, usize::MAX);
+	let env = env::run(ctx, pool, streams, !quick, env_max_class);
+	let env_stats = env.stats;
 
 	// ---- evidence
 	let states = m_states + s_states;
 	let transitions = (m_generated - n_classes as u64) + (s_generated - streams.len() as u64);
 	let judged = cnt1.judged.load(Ordering::Relaxed) + cnt2.judged.load(Ordering::Relaxed);
-	let executions = cnt1.executions.load(Ordering::Relaxed) + cnt2.executions.load(Ordering::Relaxed);
+	let executions = cnt1.executions.load(Ordering::Relaxed) + cnt2.executions.load(Ordering::Relaxed) + env.executions;
 	let decisions = cnt1.decisions.load(Ordering::Relaxed) + cnt2.decisions.load(Ordering::Relaxed);
 
 	ctx.floor("classes explored", ctx.tier.pick(100, 300), n_classes as u64);
@@ -964,15 +1205,61 @@ fn main() {
 	ctx.floor("stream reads ending on the boundary of class 2", 100, stream_stats.get("cursor-on-boundary-after-read-2"));
 	ctx.floor("stream reads ending on the boundary of class 3", 100, stream_stats.get("cursor-on-boundary-after-read-3"));
 	ctx.floor("streams read into one carried Vec<ClassFile>", streams.len() as u64, stream_stats.get("stream[carried Vec<ClassFile>]:class-delivered").min(streams.len() as u64));
+	ctx.floor("streams replayed into one carried Vec<ClassFile>", streams.len() as u64, stream_stats.get("stream[carried Vec<ClassFile>]:replayed-into-one-carried-Vec"));
+	// space 3
+	let fam = |family: &str, counter: &str| mask_stats.get(&format!("{family}|{counter}"));
+	let n_bound = (gen::NEST_SITES.len() * gen::NEST_KINDS.len()) as u64;
+	let at_bound = family_classes.get("nesting/at-the-reader-bound").copied().unwrap_or(0);
+	let below_bound = family_classes.get("nesting/below-the-reader-bound").copied().unwrap_or(0);
+	ctx.floor("nesting: classes nested as deep as the reader accepts, read in full (every site x every shape)", n_bound, at_bound);
+	ctx.floor("nesting: classes of every smaller depth, read in full", n_bound * gen::READER_DEPTH as u64, below_bound);
+	ctx.floor("nesting: full reads beyond the reach of the reference parser that state exactly the generated model", sp3_beyond, sp3_confirmed);
+	ctx.floor("nesting: replays into the tree builder that reproduce a class nested as deep as the reader accepts", n_bound, fam("nesting/at-the-reader-bound", "replay-into-Vec<ClassFile>:reproduces-the-class"));
+	ctx.floor("nesting: masked replays of classes nested as deep as the reader accepts, equal to the filtered full read", n_bound * 10, fam("nesting/at-the-reader-bound", "masked-replay:as-full-read-filtered"));
+	ctx.floor("nesting: masked reads of classes nested as deep as the reader accepts, equal to the filtered full read", n_bound * 10, fam("nesting/at-the-reader-bound", "masked-read:as-full-read-filtered"));
+	ctx.floor("nesting: masked replays below the bound equal to the filtered full read", below_bound * 5, fam("nesting/below-the-reader-bound", "masked-replay:as-full-read-filtered"));
+	for (family, classes_required, reads_required) in [("big", 2u64, 100u64), ("names", 16, 500), ("split", 8, 500), ("suite/attribute-orders-and-contents", 200, 5000), ("suite/versions-and-utf8", 40, 200), ("suite/cldc-stack-map", 28, 200), ("suite/empty-debug-tables", 42, 500)] {
+		ctx.floor(&format!("{family}: classes read in full"), classes_required, family_classes.get(family).copied().unwrap_or(0));
+		ctx.floor(&format!("{family}: masked reads equal to the filtered full read"), reads_required, fam(family, "masked-read:as-full-read-filtered"));
+		ctx.floor(&format!("{family}: masked replays equal to the filtered full read"), reads_required, fam(family, "masked-replay:as-full-read-filtered"));
+	}
+	// space 4
+	ctx.floor("environment: stream cases", ctx.tier.pick(200, 500), env.cases);
+	ctx.floor("environment: reads through a reader that served requests short, equal to the reads from a cursor", ctx.tier.pick(5_000, 50_000), env_stats.get("environment:equal-with-requests-served-short"));
+	ctx.floor("environment: reads with Interrupted answers, equal to the reads from a cursor", ctx.tier.pick(300, 1_000), env_stats.get("environment:equal-with-interrupts"));
+	ctx.floor("environment: reads through a BufReader, equal to the reads from a cursor", ctx.tier.pick(1_000, 5_000), env_stats.get("environment:equal-through-a-BufReader"));
 
 	let mut samples: Vec<Value> = mask_stats.samples.clone();
 	samples.extend(stream_stats.samples.iter().cloned());
 	samples.sort_by_key(|v| v.to_string());
 	samples.push(json!({"kind": "class", "label": classes[0].label, "class_file_hex_prefix": vcore::hex(&classes[0].bytes[..classes[0].bytes.len().min(96)]), "bytes": classes[0].bytes.len(), "fields": classes[0].full.fields.len(), "methods": classes[0].full.methods.len(), "deviation_alphabet": classes[0].alphabet.len(), "of_which_name_something_present": classes[0].effective}));
 	let mut outcomes = mask_stats.outcomes.clone();
-	for (k, v) in &stream_stats.outcomes {
+	for (k, v) in stream_stats.outcomes.iter().chain(env_stats.outcomes.iter()) {
 		*outcomes.entry(k.clone()).or_insert(0) += v;
 	}
+	let generated_json = json!({
+				"listed": sp3_listed,
+				"explored_per_family": family_classes,
+				"refused_by_the_full_read_per_family (outside the domain; read with 5 visitors for panics only)": refused_families,
+				"unencodable (skipped)": sp3_unencodable,
+				"nesting": {
+					"depths": format!("every depth 0..={}", gen::READER_DEPTH + 2),
+					"shapes": gen::NEST_KINDS,
+					"sites": gen::NEST_SITES,
+					"max_deviations": format!("depths {:?}: {}; every other depth: {} (plus the corners)", gen::NEST_BOUNDARY_DEPTHS, ctx.tier.pick(1, 2), ctx.tier.pick(0, 1)),
+					"beyond_the_reference_parser": sp3_beyond,
+				},
+				"big": "attribute_length > 65535 at class / field / method / code / record-component level (unknown attributes of 65535, 65536, 65537, 66000, 70000 bytes; SourceDebugExtension, NestMembers, Exceptions, LineNumberTable, LocalVariableTable, an annotation and a Code attribute beyond 64 KiB); 2 attribute orders",
+				"names": "unknown attributes at all five levels: every predefined name at every level where it is not predefined; six near-miss spellings of every predefined name; multi-byte names; 2 attribute orders",
+				"split": format!("kitchen sinks 2 and 1 with one table attribute per entry, attribute rotations {rotations:?}, frames extended or not", rotations = if quick { vec![0usize, 1, 2, 3, 5, 7, 11, 13] } else { (0..24).collect::<Vec<_>>() }),
+				"suite_groups": SUITE_GROUPS,
+				"max_deviations_generated": {"big": [1, ctx.tier.pick(1, 2)], "names": ctx.tier.pick(1, 2), "split": 1, "suite": format!("1{}", if quick { "" } else { "; 2 for classes with at most 40 deviations naming something present" })},
+			});
+	let environment_json = json!({
+				"streams": "every ordered pair of classes of the stream pool (quick: classes up to 4000 bytes)",
+				"visitor_kind_sequences": env::kind_sequences().iter().map(|s| format!("{} | {}", KINDS[s[0] as usize], KINDS[s[1] as usize])).collect::<Vec<_>>(),
+				"readers": format!("{:?} + one boundary at each of the 22 offsets around the class boundary + {}", env::alphabet(0, 0, !quick), if quick { "a grid of 41 offsets" } else { "one boundary at every offset (streams up to 1500 bytes; a grid of 211 offsets beyond)" }),
+	});
 	let coverage = json!({
 		"states": states,
 		"transitions": transitions,
@@ -987,8 +1274,10 @@ fn main() {
 		"visitor_answers_given": decisions,
 		"graphs": {
 			"masks": {"states": m_states, "generated": m_generated, "max_depth": m_depth, "real_code_executions": cnt1.executions.load(Ordering::Relaxed), "wall_s": (t_masks * 10.0).round() / 10.0},
-			"streams": {"states": s_states, "generated": s_generated, "max_depth": s_depth, "real_code_executions": cnt2.executions.load(Ordering::Relaxed), "streams": streams.len()},
+			"streams": {"states": s_states, "generated": s_generated, "max_depth": s_depth, "real_code_executions": cnt2.executions.load(Ordering::Relaxed), "streams": streams.len(), "wall_s": ((t_streams - t_masks) * 10.0).round() / 10.0},
+			"environment": {"stream_cases": env.cases, "readers_per_case_min_max": [env.readers_per_case.0, env.readers_per_case.1], "real_code_executions": env.executions, "wall_s": ((ctx.elapsed_s() - t_streams) * 10.0).round() / 10.0},
 		},
+		"building_the_classes_wall_s": (t_classes * 10.0).round() / 10.0,
 		"bounds": {
 			"interest_flags": FLAGS.iter().map(|f| f.len()).sum::<usize>(),
 			"flags_per_level": LEVEL_NAMES.iter().zip(FLAGS.iter()).map(|(n, f)| format!("{n}:{}", f.len())).collect::<Vec<_>>(),
@@ -1007,6 +1296,8 @@ fn main() {
 			"stream_lengths": [1, 2, 3],
 			"stream_visitor_kinds": KINDS,
 			"trailing_bytes_after_every_stream": TAIL.len(),
+			"generated_classes": generated_json,
+			"environment": environment_json,
 		},
 	});
 	ctx.finish(coverage, &[
@@ -1014,6 +1305,8 @@ fn main() {
 		"an item the visitor declared no interest in may or may not be delivered; if it is, it must be the full read's item",
 		"order is compared where the tree keeps it (members, annotations, instructions, table entries); the relative order of different attribute kinds is not an observable of the tree builders",
 		"stateright's BFS visits every reachable state (its exhaustiveness is trusted)",
+		"a generated class that the full read refuses (element values nested deeper than the reader's bound) is outside the domain: partial reads of it are run for panics only",
+		"a class file is the same class file through every legal std::io::Read + Seek: requests served short and Interrupted (retry) are legal answers of the environment; the scripted readers are self-tested before use; the stream position is what Seek::stream_position reports",
 		"javac-17 output is covered through the vendored corpus only",
 	]);
 }
@@ -1034,7 +1327,7 @@ fn replay(ctx: &'static Ctx, path: &std::path::Path) -> ! {
 		let label = line("label=").unwrap_or_default();
 		let case = match SINKS.iter().find(|(l, ..)| *l == label && !body.contains("class file bytes")) {
 			Some((l, variant, order)) => sink(*variant, order.clone(), l, 0),
-			None => build_case(&label, hex_after("class file bytes"), 0).unwrap_or_else(|e| vcore::machinery_fail(&e)),
+			None => build_case_with(&label, "replay", hex_after("class file bytes"), 0, None, true).unwrap_or_else(|e| vcore::machinery_fail(&e)),
 		};
 		println!("visitor answers: {}", plan.describe());
 		for _ in 0..2 {
@@ -1046,12 +1339,35 @@ fn replay(ctx: &'static Ctx, path: &std::path::Path) -> ! {
 			observations.push(one.outcomes.clone());
 			st = st.merge(one);
 		}
+	} else if body.starts_with("case=env") || body.starts_with("case=stream") && false {
+		let reader = line("reader=").and_then(|r| env::parse_reader(r.trim())).unwrap_or_else(|| vcore::machinery_fail("replay: bad reader"));
+		let kinds: Vec<u8> = line("kinds=").unwrap_or_default().split(',').filter_map(|s| s.trim().parse().ok()).collect();
+		let n: usize = line("classes=").and_then(|s| s.trim().parse().ok()).unwrap_or(0);
+		let mut pool = Vec::new();
+		for i in 0..n {
+			pool.push(build_case_with(&format!("replay-class-{i}"), "replay", hex_after(&format!("class {i} [")), 0, None, true).unwrap_or_else(|e| vcore::machinery_fail(&e)));
+		}
+		let mut bytes = Vec::new();
+		let mut boundaries = vec![0u64];
+		for c in &pool {
+			bytes.extend_from_slice(&c.bytes);
+			boundaries.push(bytes.len() as u64);
+		}
+		bytes.extend_from_slice(&TAIL);
+		let sc = StreamCase { classes: (0..n).collect(), bytes, boundaries };
+		println!("reader: {reader:?}; visitors: {}", kinds.iter().map(|k| KINDS[*k as usize]).collect::<Vec<_>>().join(" | "));
+		for _ in 0..2 {
+			let mut one = Stats::new();
+			one.evaluations += env::one(ctx, &mut one, &pool, &sc, &kinds[..kinds.len().min(n)], &[reader]);
+			observations.push(one.outcomes.clone());
+			st = st.merge(one);
+		}
 	} else if body.starts_with("case=stream") {
 		let kinds: Vec<u8> = line("kinds=").unwrap_or_default().split(',').filter_map(|s| s.trim().parse().ok()).collect();
 		let n: usize = line("classes=").and_then(|s| s.trim().parse().ok()).unwrap_or(0);
 		let mut pool = Vec::new();
 		for i in 0..n {
-			pool.push(build_case(&format!("replay-class-{i}"), hex_after(&format!("class {i} [")), 0).unwrap_or_else(|e| vcore::machinery_fail(&e)));
+			pool.push(build_case_with(&format!("replay-class-{i}"), "replay", hex_after(&format!("class {i} [")), 0, None, true).unwrap_or_else(|e| vcore::machinery_fail(&e)));
 		}
 		let mut bytes = Vec::new();
 		let mut boundaries = vec![0u64];
